@@ -5,6 +5,7 @@
 -/
 import Frugal.Proofs.ToWire
 import Frugal.Proofs.DecodeRefine
+import Frugal.Proofs.ReadNorm
 set_option linter.unusedSimpArgs false
 namespace Frugal
 
@@ -38,5 +39,45 @@ theorem roundtrip_via_reader {P : Params} (hP : P.valid = true) (S : Schema) (hS
   have := decodeM_refines hP S hS sid (messageOf S sid (.st xs [])) [] dest hwf
   simp only [List.append_nil, List.length_nil] at this
   exact this
+
+
+/-- the reference reader on the denotation of a value returns its normal form -/
+theorem readMessage_norm {P : Params} (S : Schema) (hS : S.ok = true) (hside : S.rtSide) (sid : Nat)
+    (xs : List Val) (h : Bytes) (ds : List Val) (h' : Bytes) (trailing : Nat)
+    (ht : hasTy S (.strct sid) (.st xs h) = true) (hdest : hasTy S (.strct sid) (.st ds h') = true)
+    (hr : rtOK S (.strct sid) (.st xs h) = true)
+    (hd : 2 * depth (toWire S (.strct sid) (.st xs h)) ≤ P.maxDepth) :
+    readMessage P S sid (messageOf S sid (.st xs h)) trailing (.st ds h') =
+      .ok (normTop S sid (.st xs h) (.st ds h')) := by
+  unfold readMessage
+  simp only [hasTy, Bool.and_eq_true] at ht hdest
+  simp only [rtOK] at hr
+  simp only [toWire, depth] at hd
+  obtain ⟨f, hf⟩ : ∃ f, P.maxDepth = f + 1 := ⟨P.maxDepth - 1, by omega⟩
+  rw [hf]
+  have hsd := sd_ok hS sid
+  simp only [SDesc.ok, List.all_eq_true] at hsd
+  simp only [messageOf]
+  generalize (ser (.strct (toWireFields S (S.get sid) (S.get sid).fields xs))).length + trailing = total
+  have hloop := readFields_norm P S total hS hside xs (S.get sid) (S.get sid).fields [] [] ds [] f (trailing + 1)
+    rfl (hside.distinct sid) (fun g hg => ⟨hsd g hg, hside.noNocopy sid g hg⟩) rfl ht.2 hdest.2 hr (by omega)
+  simp only [List.nil_append] at hloop
+  have hreq := seenOf_required S (S.get sid) (S.get sid).fields xs [] ht.2
+  rw [readStruct_done P S total f sid trailing _ ds h' _ _ _ rfl hloop hreq]
+  simp only [normTop]
+
+/-- C01: encode, then decode into a destination of the type: succeeds, consumes exactly the encoded
+    length, and yields the value's normal form. -/
+theorem roundtrip_full {P : Params} (hP : P.valid = true) (S : Schema) (hS : S.ok = true) (hside : S.rtSide)
+    (sid : Nat) (xs ds : List Val) (h' : Bytes)
+    (ht : hasTy S (.strct sid) (.st xs []) = true) (hdest : hasTy S (.strct sid) (.st ds h') = true)
+    (hn : noHolderList xs = true) (hf : sizesFitList xs = true)
+    (hr : rtOK S (.strct sid) (.st xs []) = true)
+    (hd : 2 * depth (toWire S (.strct sid) (.st xs [])) ≤ P.maxDepth) :
+    decodeM P S sid (appendM P S sid (.st xs [])) (.st ds h') =
+      .ok (normTop S sid (.st xs []) (.st ds h'), (appendM P S sid (.st xs [])).length) := by
+  rw [roundtrip_via_reader hP S hS sid xs (.st ds h') ht hn hf]
+  rw [readMessage_norm S hS hside sid xs [] ds h' 0 ht hdest hr hd]
+  rfl
 
 end Frugal
